@@ -172,27 +172,36 @@ def field_snapshot(obj):
 
 
 def _dict_snapshot(dct):
-    out = []
+    out = {}
     for k in dct:
         v = dct[k]
         if isinstance(v, np.ndarray):
-            out.append((repr(k), "nd", v.shape, str(v.dtype), np.ascontiguousarray(v).tobytes()))
+            out[repr(k)] = ("nd", v.shape, str(v.dtype), np.ascontiguousarray(v).tobytes())
         elif hasattr(v, "__dict__") and not isinstance(v, type):
-            out.append((repr(k), "obj", tuple(sorted((a, repr(b)) for a, b in
-                                                      field_snapshot(v).items()))))
+            out[repr(k)] = ("obj", field_snapshot(v))
         else:
-            out.append((repr(k), "val", repr(v)))
-    return tuple(out)
+            out[repr(k)] = ("val", repr(v))
+    return out
 
 
-def snapshot_diff(before, after):
+def snapshot_diff(before, after, prefix=""):
     """names of fields that existed before and differ now (new lazily created fields are fine)"""
     bad = []
     for k, v in before.items():
         if k not in after:
-            bad.append(k + " (removed)")
+            bad.append(prefix + k + " (removed)")
+        elif isinstance(v, tuple) and v[0] == "dict" and isinstance(after[k], tuple) and after[k][0] == "dict":
+            b, a = v[1], after[k][1]
+            if list(b) != list(a):
+                bad.append(prefix + k + " (keys/order changed)")
+                continue
+            for kk in b:
+                if b[kk][0] == "obj" and a[kk][0] == "obj":
+                    bad.extend(snapshot_diff(b[kk][1], a[kk][1], prefix + k + "[" + kk + "]."))
+                elif b[kk] != a[kk]:
+                    bad.append(prefix + k + "[" + kk + "]")
         elif after[k] != v:
-            bad.append(k)
+            bad.append(prefix + k)
     return bad
 
 
